@@ -333,7 +333,44 @@ func runReaderHistoryInner(cs *drv.Case, ops []rOp, spec srcSpec, o readerOpts) 
 		return true
 	}
 
+	// a second reader of the same goroutine, used between the operations of the one under test (a connection
+	// handled next to another): its own stream and buffers, so nothing it does may show in this history
+	var shadow *bufiox.DefaultReader
+	var shadowPos int
+	shadowData := []byte(nil)
+	if !san.PoolShim && cs.R.Intn(4) == 0 {
+		shadowData = bytes.Repeat([]byte{0x5A}, 20000)
+		shadow = bufiox.NewDefaultReader(bytes.NewReader(shadowData))
+		cs.C.Obs("histories with a second reader interleaved", 1)
+	}
+	shadowStep := func() {
+		if shadow == nil {
+			return
+		}
+		k := 1 + cs.R.Intn(6000)
+		if shadowPos+k > len(shadowData) {
+			shadow.Release(nil)
+			shadow = bufiox.NewDefaultReader(bytes.NewReader(shadowData))
+			shadowPos = 0
+		}
+		switch cs.R.Intn(3) {
+		case 0:
+			shadow.Peek(k)
+		case 1:
+			if b, err := shadow.Next(k); err == nil {
+				shadowPos += len(b)
+			}
+		default:
+			shadow.Release(nil)
+		}
+	}
+	defer func() {
+		if shadow != nil {
+			shadow.Release(nil)
+		}
+	}()
 	for i, op := range ops {
+		shadowStep()
 		calls0 := 0
 		if src != nil {
 			calls0 = src.Calls
